@@ -58,7 +58,8 @@ def topo (pd : PD) : List String → Option PD
     else if !(p.r.contains key) || key == p.r.start then none
     else
       let left : PdRegion := { p with r := { p.r with end_ := some key, ver := p.r.ver + 1 } }
-      let right : PdRegion := ⟨⟨nrid, key, p.r.end_, 1, 0⟩, p.peers.headD 0, p.peers⟩
+      -- /repo bd025bf: like TiKV, both halves get the parent's epoch with the version increased by one
+      let right : PdRegion := ⟨⟨nrid, key, p.r.end_, p.r.ver + 1, p.r.confVer⟩, p.peers.headD 0, p.peers⟩
       some (pdInsert right (pd.map fun x => if x.r.id == rid then left else x))
   | ["merge", a, b] => do
     let a ← a.toNat?
@@ -67,7 +68,8 @@ def topo (pd : PD) : List String → Option PD
     let pb ← pd.getRegionByID b
     if a == b || pa.r.end_ != some pb.r.start then none
     else
-      let m : PdRegion := { pa with r := { pa.r with end_ := pb.r.end_, ver := pa.r.ver + 1 } }
+      -- /repo bd025bf: version = max(source, target) + 1
+      let m : PdRegion := { pa with r := { pa.r with end_ := pb.r.end_, ver := max pa.r.ver pb.r.ver + 1 } }
       some ((pd.filter fun x => x.r.id != b).map fun x => if x.r.id == a then m else x)
   | ["leader", rid, store] => do
     let rid ← rid.toNat?
